@@ -14,6 +14,7 @@ R-C32.3  explicit rejections: check_signature rejects every unsupported paramete
          both call handlers reject keywords before dispatching; multi-target assignments,
          `as` in with-items, async generators are rejected.
 R-C32.4  a built statement is dropped only when it is a compiler temporary.
+R-C32.5  calls interpreted by callee name (comptime/py, dagger/control/power) read their keywords (c32_special.py).
 """
 
 from __future__ import annotations
@@ -320,6 +321,10 @@ def run(ctx: Ctx) -> None:
                   {"guards": [(ast.unparse(e)[:80], p) for e, p in gs], "dropped_although_not_a_temporary": bad[:3]},
                   "an expression statement written by the user is dropped from the block (never checked): `x` alone on a line is accepted "
                   "even if x is undefined or already consumed")
+
+    # ------------------------------------------------------------ R-C32.5 special-form calls read their keywords
+    from . import c32_special
+    c32_special.run(ctx)
 
 
 def _calls_at(m) -> list[ast.Call]:
